@@ -6,7 +6,7 @@ import json
 
 import numpy as np
 
-from ..core import MachineryError
+from ..core import MachineryError, idx
 
 
 def _lat(v):
@@ -22,22 +22,22 @@ class OffLattice(Exception):
 
 def _reg(roi):
     ry, rx = roi
-    return [int(ry.start), int(ry.stop), int(rx.start), int(rx.stop)]
+    return [idx(ry.start), idx(ry.stop), idx(rx.start), idx(rx.stop)]
 
 
 def _tables(gbt, d, crops, parent):
     """Log every answer of the real tiling object (and of the GeoboxTiles wrapping it)."""
     t = gbt.roi
-    ny, nx = (int(v) for v in t.shape.yx)
-    NY, NX = (int(v) for v in t.base.yx)
-    chunks = [[int(v) for v in ch] for ch in t.chunks]
+    ny, nx = (idx(v) for v in t.shape.yx)
+    NY, NX = (idx(v) for v in t.base.yx)
+    chunks = [[idx(v) for v in ch] for ch in t.chunks]
     regions = [[_reg(t[r, c]) for c in range(nx)] for r in range(ny)]
     neg = [[_reg(t[r - ny, c - nx]) for c in range(nx)] for r in range(ny)]
-    tshape = [[[int(v) for v in t.tile_shape((r, c)).yx] for c in range(nx)] for r in range(ny)]
-    cshape = [[[int(v) for v in gbt.chunk_shape((r, c)).yx] for c in range(nx)] for r in range(ny)]
-    if cshape != tshape or [list(map(int, ch)) for ch in gbt.chunks] != chunks or tuple(gbt.shape.yx) != (ny, nx):
+    tshape = [[[idx(v) for v in t.tile_shape((r, c)).yx] for c in range(nx)] for r in range(ny)]
+    cshape = [[[idx(v) for v in gbt.chunk_shape((r, c)).yx] for c in range(nx)] for r in range(ny)]
+    if cshape != tshape or [list(map(idx, ch)) for ch in gbt.chunks] != chunks or tuple(gbt.shape.yx) != (ny, nx):
         tshape = [[[-1, -1]] * nx] * ny  # GeoboxTiles disagrees with its own ROI tiling: rejected by the table verdict
-    locate = [[[int(v) for v in t.locate((y, x))] for x in range(NX)] for y in range(NY)]
+    locate = [[[idx(v) for v in t.locate((y, x))] for x in range(NX)] for y in range(NY)]
     oob = []
     # (a variable-sized tiling answers an index below -n with an inverted slice instead of refusing it; the statement is about indices of
     #  the tiling, so that probe is made on regular tilings only - noted in DESIGN.md)
@@ -65,7 +65,7 @@ def _tables(gbt, d, crops, parent):
         for c in range(nx):
             g = gbt[r, c]
             ga = g.affine
-            row.append([int(g.shape[0]), int(g.shape[1])] + [_lat(v) for v in (ga.a, ga.b, ga.c, ga.d, ga.e, ga.f)])
+            row.append([idx(g.shape[0]), idx(g.shape[1])] + [_lat(v) for v in (ga.a, ga.b, ga.c, ga.d, ga.e, ga.f)])
         tgb.append(row)
     return {"kind": "tiling", "d": d, "crops": crops, "outcome": "ok", "t": [ny, nx], "base": [NY, NX], "chunks": chunks,
             "regions": regions, "neg": neg, "oob": oob, "tshape": tshape, "locate": locate, "rois": rois, "gb": gb, "tgb": tgb,
@@ -89,7 +89,7 @@ def run_tiling(case):
         for k, q in enumerate(crops):
             ptab = _tables(gbt, d, crops[:k], [])
             # the same block of tiles spelled the way users write it: open ends, negative stops / starts, a bare index for one row / column
-            ty, tx = (int(v) for v in gbt.shape.yx) if hasattr(gbt.shape, "yx") else tuple(gbt.shape)
+            ty, tx = (idx(v) for v in gbt.shape.yx) if hasattr(gbt.shape, "yx") else tuple(gbt.shape)
             style = (sum(q) + 3 * k + d.get("base", [0])[0]) % 4
 
             def spell(a, b, n, st):
